@@ -222,10 +222,49 @@ chk("C10", "fault_enumeration",
     "TLA+ spec (CmsMsg) model-checked by TLC; every state realised by an independent encoder; impl->spec trace validation",
     "DESIGN.md §3 C10")
 
+# what rounds 6-7 and the coverage audit added to the realisation of each model (DESIGN.md §8.7)
+EXTRA = {
+    "C01": " Every public route to the verdict is asked the same question: relaxed mode, inspect_* + verify_*_at, the detached-EE pair, and - for "
+           "behaviours whose evaluation instant lies strictly between two certificate times, with the instants placed around the wall clock - the "
+           "clock-reading entry points validate_* / verify_* / verify_ta_ref.",
+    "C02": " The model also carries the address family the ROA coverage facet lives in (v4, v6, each with or without the other family), the EE "
+           "certificate's overclaim policy (trim: claim trimmed to two pieces, prefixes in the later one), a signer identifier with a trailing octet, "
+           "the CRL facet for generic objects and the size class of 65535 bytes; every object is decided through process, validate, validate_at and "
+           "decode_if_type + validate.",
+    "C03": " Every obtained set is additionally swept through the rest of the public surface: IpBlocks::from_str, per-block text forms, builders "
+           "fed by push and Extend, all(), iter_asns, intersection_assign, verify_covered, and ResourceSet difference / contains_asn / from_strs / serde.",
+    "C04": " The corpus includes objects with 65535 / 65536 / 65537 bytes of signed attributes, a manifest whose names use the whole RFC 9286 alphabet "
+           "at first and last position, TALs through read / read_dir / TalUri's parsers and RTAs taken apart again (RtaBuilder::from_rta); time "
+           "budgets are processor time per input.",
+    "C05": " Builders are fed through every public route (ASPA one provider at a time, ROA typed / per-family pushes and slices), resources include "
+           "touching blocks given out of order, and the accessor table covers CSR, identity-certificate, manifest-entry, CRL-structure and ROA-entry views.",
+    "C06": " Behaviours are run under two realisations of the model's payload items (ordinary values; host prefixes /32 and /128, one octet of key "
+           "information, AS 0 and 2^32-1).",
+    "C07": " The reader automaton covers all 27 fixed-size readers (read / try_read / read_payload of nine PDU structs) and open, silent streams "
+           "(a reader may wait only for bytes its header announced); PDUs around and beyond 64 KiB, queries read by the real server connection "
+           "under every fragmentation, and one driven client session per version pairing are included.",
+    "C09": " Hostile streams include endless runs of small comments, processing instructions and CDATA sections (no element starts, so no fresh "
+           "budget is due); every hostile stream ends at twice the limit in force.",
+    "C10": " The content is a real RFC 6492 / 8181 message and every case is also decided by ProvisioningCms / PublicationCms (decode, validate_at, "
+           "validate) and SignedMessage::validate with the instants around the wall clock; windows whose ends are the wrong way round are facets.",
+    "C12": " Every parser entry point (from_str, from_slice, from_string, from_bytes, TryFrom, parse, serde) must keep the text byte for byte; byte "
+           "accessors, ends_with and path_into_dir are compared with the model.",
+    "C13": " Windows include IPv4-mapped IPv6 addresses; route origins written as struct expressions meet those made by new() in every pairing.",
+    "C14": " Every 25th content is also wrapped in a real signed manifest (Manifest::decode strict / relaxed must agree with ManifestContent::take_from); "
+           "size_hint of the list iterators must bracket what they yield; manifests written with unreal times must not decode.",
+    "C15": " Assertion lists with several entries of every kind and repeats are included, expectations are written from raw data (not through the "
+           "library's constructors), and IPv4-mapped IPv6 prefixes are a fourth rendering.",
+    "C16": " Every PDU that carries a serial number must put it on the wire big-endian and hand it back through each accessor.",
+    "C17": " Serial numbers are replayed at every length from 1 to 20 octets through every conversion (array, String, integer constructors); "
+           "Validity::verify is asked against the wall clock.",
+}
+
 ALL = ["C%02d" % i for i in range(1, 18)]
 
 
 def main():
+    for pid, extra in EXTRA.items():
+        CHECKS[pid]["level_claimed"]["text"] += extra
     with open(os.path.join(ROOT, "lib", "not_applicable.json")) as f:
         na = json.load(f)
     man = {
